@@ -143,6 +143,13 @@ func propC17(c *ctx) error {
 			}
 		}
 	}
+	// ---- directive values: literal and code segments with their positions.  The value of a directive attribute is
+	// printed from a generated segment list (literal text / ${code}; the code may hold string literals of the three
+	// styles with braces, '${', tabs and line breaks); the expectation is computed by offset bookkeeping over the
+	// source; the model's code scanner is asked for the same value at the same start position.
+	if err := c17Values(c, r); err != nil {
+		return err
+	}
 	// malformed stream: mutations of generated documents and random symbol soup — correspondence only
 	alphabet := []string{"<", ">", "/", "=", "\"", "'", " ", "a", "!", "-", "]", "[", "\n", "\t", "</scr", "</SCRIPT >", "<![CDATA[", "<script>", " ", "é", "<!--", "-->"}
 	mn := c.n(1500, 60000)
@@ -169,4 +176,121 @@ func firstDiff(a, b any) string {
 		lo = 0
 	}
 	return fmt.Sprintf("…%s ≠ …%s", trunc(as[lo:], 120), trunc(bs[lo:], 120))
+}
+
+type c17Seg struct {
+	kind int // 2 literal, 4 code
+	text string
+}
+
+func c17Values(c *ctx, r *rng) error {
+	res := c.res
+	lits := []string{"a", " ", "x y", "é", "\t", "\n", "$", "{", "}", "$ {", "price: $5", "a\tb", "✓", "}}", "\n\t"}
+	codes := []string{"x", "a + b", " x ", "f(1, 2)", "m['k']", "x +\n y", "x +\ty", "`raw`", "`r\nw`", "`a\tb`", "`}`", "`${`", "\"}\"", "\"{\"", "'}'", "'${'", "\"a\\\"}\"",
+		"f((1))", "x /* c */", "(x)", "`l1\nl2\nl3` + y", "s + `\t`", "\"é✓\"", "a ? b : c", "xs[1:2]"}
+	n := c.n(600, 30000)
+	for i := 0; i < n; i++ {
+		quote := "\""
+		if r.p(50) {
+			quote = "'"
+		}
+		var segs []c17Seg
+		lastLit := false
+		for k := 1 + r.n(4); k > 0; k-- {
+			if r.p(40) && !lastLit {
+				segs = append(segs, c17Seg{2, r.pick(lits)})
+				lastLit = true
+			} else {
+				code := r.pick(codes)
+				if strings.Contains(code, quote) {
+					continue
+				}
+				segs = append(segs, c17Seg{4, code})
+				lastLit = false
+			}
+		}
+		if len(segs) == 0 {
+			continue
+		}
+		// a literal must not end with '$' when a block follows ("$${" would still open a block, but keep the oracle simple)
+		var val strings.Builder
+		for _, sg := range segs {
+			if sg.kind == 2 {
+				val.WriteString(sg.text)
+			} else {
+				val.WriteString("${" + sg.text + "}")
+			}
+		}
+		v := val.String()
+		if strings.Contains(v, "$${") {
+			continue
+		}
+		lead := r.pick([]string{"", "x", "\n", "\t", "t\n\t", "<b>é</b> "})
+		name := ":" + r.pick([]string{"text", "if", "title", "with-x", "raw"})
+		pre := lead + "<p" + r.pick([]string{" ", "\n", " id=1 ", "\t"}) + name + "="
+		src := pre + quote + v + quote + r.pick([]string{">", " >", " b>", "/>"})
+		rs := []rune(src)
+		off := len([]rune(pre))
+		pj := func(n int) []any { q := posAt(rs, n); return []any{q[0], q[1]} }
+		// expected value tokens
+		var want []any
+		add := func(kind int, text string) {
+			l := len([]rune(text))
+			want = append(want, J{"k": kind, "v": text, "s": pj(off), "e": pj(off + l)})
+			off += l
+		}
+		add(1, quote)
+		for _, sg := range segs {
+			if sg.kind == 2 {
+				add(2, sg.text)
+			} else {
+				add(3, "${")
+				add(4, sg.text)
+				add(5, "}")
+			}
+		}
+		add(1, quote)
+		valStart := posAt(rs, len([]rune(pre)))
+		toks, err, pan := implScanTokens(src, nil, ":")
+		res.eval("val|"+src, true, J{"src": src})
+		res.S3Checked++
+		res.count("directive_value_cases")
+		cs := J{"src": src, "value": quote + v + quote}
+		if pan != nil || err != nil {
+			// adjacent literal segments are one literal for the scanner: only values the generator keeps apart get here
+			res.violate(cs, "tokens", J{"err": fmt.Sprint(err), "panic": fmt.Sprint(pan)}, "well-formed directive value rejected by the scanner")
+			continue
+		}
+		var got []any
+		var ve []any
+		for _, t := range toks {
+			if t.Tag == nil {
+				continue
+			}
+			for _, a := range t.Tag.Attrs {
+				if a.Name == name {
+					for _, vt := range a.ValueTokens {
+						got = append(got, J{"k": int(vt.Kind), "v": vt.Value, "s": posJ(vt.Start), "e": posJ(vt.End)})
+					}
+					ve = []any{a.ValueEnd.Line, a.ValueEnd.Column}
+				}
+			}
+		}
+		if !reflect.DeepEqual(normJSON(want), normJSON(got)) {
+			res.violate(cs, want, got, "literal / code segments of a directive value or their positions differ from the written ones: "+firstDiff(normJSON(want), normJSON(got)))
+		} else if len(want) > 0 && !reflect.DeepEqual(normJSON(ve), normJSON(want[len(want)-1].(J)["e"])) {
+			res.violate(cs, want[len(want)-1].(J)["e"], ve, "the last segment does not end where the attribute value ends")
+		}
+		if c.d != nil {
+			m, err := c.d.ask(J{"op": "codescan", "src": quote + v + quote, "line": valStart[0], "col": valStart[1]})
+			if err != nil {
+				return err
+			}
+			res.S2Compared++
+			if mrej, _ := m["err"].(bool); mrej || jstr(normJSON(m["toks"])) != jstr(normJSON(got)) {
+				res.disagree(cs, got, m, "codescan tokens of a directive value")
+			}
+		}
+	}
+	return nil
 }
